@@ -3,9 +3,6 @@ CONSTANT Mode = "walk"
 INIT Init
 NEXT Next
 INVARIANT Emit
-INVARIANT PeekInv
-INVARIANT AtEndInv
 INVARIANT WfInv
 INVARIANT PosInv
-INVARIANT MonoInv
 INVARIANT RoundTripInv
